@@ -27,7 +27,7 @@ def reg_type(name):
 
 @rechecked
 def check_moves(moves, free, width):
-    """moves: list of (src reg name, dst reg name); free: list of free register names."""
+    """moves: list of (src reg name, dst reg name); free: list of free register names; width: int or list of per-move widths."""
     from xdsl.context import Context
     from xdsl.dialects import builtin, riscv, test
     from xdsl.dialects.builtin import ArrayAttr, DenseArrayBase, ModuleOp, i32
@@ -36,11 +36,12 @@ def check_moves(moves, free, width):
     from xdsl.utils.exceptions import PassFailedException
 
     moves = [tuple(m) for m in moves]
+    widths = list(width) if isinstance(width, (list, tuple)) else [width] * len(moves)
     srcs_names = sorted({s for s, _ in moves})
     defs = {n: test.TestOp.create(result_types=[reg_type(n)]) for n in srcs_names}
     inputs = [defs[s].results[0] for s, _ in moves]
     outputs = [reg_type(d) for _, d in moves]
-    pm = riscv.ParallelMovOp(inputs, outputs, DenseArrayBase.from_list(i32, [width] * len(moves)),
+    pm = riscv.ParallelMovOp(inputs, outputs, DenseArrayBase.from_list(i32, widths),
                              ArrayAttr([reg_type(f) for f in free]) if free is not None else None)
     user = test.TestOp.create(operands=list(pm.results))
     module = ModuleOp([*defs.values(), pm, user])
@@ -62,19 +63,20 @@ def check_moves(moves, free, width):
     regs = {}
     allregs = set(INT_REGS + FLT_REGS) | {s for s, _ in moves} | {d for _, d in moves} | set(free or [])
     for r in allregs:
-        regs[r] = frozenset([r])
+        regs[r] = (frozenset([r]), "full")  # (xor-set of original register contents, "full" | "lo32" = only the low 32 bits are meaningful)
     init = dict(regs)
     val_of = {}  # SSA value -> register name that holds it (by type)
     for op in module.body.block.ops:
         if op.name in ("riscv.mv", "riscv.fmv.s", "riscv.fmv.d"):
             src = op.operands[0].type.register_name.data
             dst = op.results[0].type.register_name.data
-            regs[dst] = regs[src]
+            # fmv.s copies the low 32 bits (NaN-boxed): the upper half of the source is lost
+            regs[dst] = (regs[src][0], "lo32") if op.name == "riscv.fmv.s" else regs[src]
         elif op.name == "riscv.xor":
             a = op.operands[0].type.register_name.data
             b = op.operands[1].type.register_name.data
             dst = op.results[0].type.register_name.data
-            regs[dst] = regs[a] ^ regs[b]
+            regs[dst] = (regs[a][0] ^ regs[b][0], "full")
         elif op.name in ("test.op", "builtin.module"):
             continue
         else:
@@ -84,11 +86,12 @@ def check_moves(moves, free, width):
         if v.type.register_name.data != d:
             return {"moves": moves, "free": free, "why": f"result for move {s}->{d} lives in register {v.type.register_name.data}", "key": "C20/result-register"}
     long_int_cycle_without_scratch = any(len(c) >= 3 for c in _cycles(moves, "i")) and not any(not f.startswith("f") for f in (free or []))
-    for s, d in moves:
-        if regs[d] != init[s]:
+    for (s, d), wd in zip(moves, widths):
+        ok = regs[d][0] == init[s][0] and (regs[d][1] == "full" or wd == 32 or s == d)
+        if not ok:
             return {"moves": moves, "free": free, "width": width, "inputs": {"int_cycle_of_3_or_more_without_scratch": long_int_cycle_without_scratch, "failing_destination_is_a_self_move": s == d}, "emitted": [o.name + str([x.type.register_name.data for x in o.operands]) + "->" +
                     str([x.type.register_name.data for x in o.results]) for o in module.body.block.ops if o.name.startswith("riscv")],
-                    "why": f"after the sequence {d} holds {sorted(regs[d])}, expected the old value of {s}", "key": "C20/simultaneous-assignment"}
+                    "why": f"after the sequence {d} holds {sorted(regs[d][0])} ({regs[d][1]}), expected the old value of {s} at width {wd}", "key": "C20/simultaneous-assignment"}
     dsts = {d for _, d in moves}
     for r in allregs:
         if r not in dsts and r not in (free or []) and regs[r] != init[r]:
@@ -150,6 +153,17 @@ def explore(tier, seed):
             for width in (32, 64):
                 cases += 1
                 rec(check_moves(moves, free, width))
+    # float moves with mixed widths (a 64-bit value must not be moved with fmv.s)
+    for moves in all_move_sets(FLT_REGS[:nf], nf):
+        srcs = sorted({s_ for s_, _ in moves})
+        if len(srcs) >= 2:
+            # one width per source value (a value has a single width); all mixed assignments
+            for ws in itertools.product((32, 64), repeat=len(srcs)):
+                if len(set(ws)) == 2:
+                    wmap = dict(zip(srcs, ws))
+                    for free in ([], ["ft3"]):
+                        cases += 1
+                        rec(check_moves(moves, free, [wmap[s_] for s_, _ in moves]))
     # mixed int + float
     rnd = random.Random(seed)
     for _ in range(200 if tier == "quick" else 3000):
